@@ -30,6 +30,7 @@ type c12HTTPProxy struct {
 	refuse   atomic.Bool // answer CONNECT with 403 (tunnel refused)
 	connects atomic.Int64
 	forwards atomic.Int64 // absolute-form requests forwarded
+	accepts  atomic.Int64 // https proxy only: TCP connections accepted (the TLS hop to the proxy may fail before any CONNECT)
 	mu       sync.Mutex
 	targets  []string // CONNECT targets / absolute request URIs, in order
 }
@@ -47,6 +48,48 @@ func c12StartHTTPProxy() (*c12HTTPProxy, error) {
 				return
 			}
 			go p.serve(c)
+		}
+	}()
+	return p, nil
+}
+
+// c12ProxyHost is the name the https proxy is addressed by (and the only name, besides the
+// ServerName-override target, its certificate lists): it differs from the origins' host
+// (127.0.0.1, an IP SAN of the origin certificate, which does NOT list localhost), so a
+// ServerName carried over from the hop to the proxy into the tunnelled session — or the other
+// way round — fails verification.
+const c12ProxyHost = "localhost"
+
+// c12StartHTTPSProxy: the same proxy behind TLS (SetProxyURL("https://localhost:port")): the
+// client handshakes with the PROXY first (certificate by the good CA, SAN DNS localhost +
+// c12.example, no IP SAN), sends CONNECT inside, then handshakes with the origin in the tunnel.
+func c12StartHTTPSProxy() (*c12HTTPProxy, error) {
+	ln, err := net.Listen("tcp", "127.0.0.1:0")
+	if err != nil {
+		return nil, err
+	}
+	pki := c12GetPKI()
+	cert := pki.cas[0].leaf("https-proxy", true, []string{c12ProxyHost, c12SAN}, nil)
+	cfg := &tls.Config{Certificates: []tls.Certificate{cert}, NextProtos: []string{"http/1.1"}}
+	_, port, _ := net.SplitHostPort(ln.Addr().String())
+	p := &c12HTTPProxy{ln: ln, addr: net.JoinHostPort(c12ProxyHost, port)}
+	go func() {
+		for {
+			c, err := ln.Accept()
+			if err != nil {
+				return
+			}
+			p.accepts.Add(1)
+			go func() {
+				tc := tls.Server(c, cfg)
+				tc.SetDeadline(time.Now().Add(10 * time.Second))
+				if err := tc.Handshake(); err != nil {
+					c.Close()
+					return
+				}
+				tc.SetDeadline(time.Time{})
+				p.serve(tc)
+			}()
 		}
 	}()
 	return p, nil
